@@ -86,19 +86,28 @@ LastIdx(s, nm) ==
 HasRef(s, i) == s[i].r.m # "none"
 ExtTargets(s) == {<<s[i].r.m, s[i].r.n>> : i \in {j \in DOMAIN s : HasRef(s, j)}}
 
-D(m, at, i, tm, tn, k) == [m |-> m, at |-> at, i |-> i, tm |-> tm, tn |-> tn, k |-> k]
+\* a diagnostic: module, zero-based line in the rendering of the text it was computed for, kind
+D(m, line, k) == [m |-> m, line |-> line, k |-> k]
+
+\* zero-based lines of the fixed rendering: `library;`, one `pub mod` per child, one `use` per distinct external
+\* target (sorted by module, then name), then one line per item
+ModNo(t) == CASE t = "a" -> 1 [] t = "b" -> 2 [] t = "c" -> 3 [] OTHER -> 0
+NameNo(t, n) == CHOOSE k \in 1..3 : NameTable[t][k] = n
+Less(u, t) == ModNo(u[1]) < ModNo(t[1]) \/ (u[1] = t[1] /\ NameNo(u[1], u[2]) < NameNo(t[1], t[2]))
+UseLine(m, s, t) == 1 + Cardinality(Children(m)) + Cardinality({u \in ExtTargets(s) : Less(u, t)})
+ItemLine(m, s, i) == 1 + Cardinality(Children(m)) + Cardinality(ExtTargets(s)) + (i - 1)
 
 \* `use ::tm::tn;` of an undefined item
 UseDiag(m, s, env) ==
-    {D(m, "use", 0, t[1], t[2], "Unresolved") : t \in {u \in ExtTargets(s) : LastIdx(env[u[1]], u[2]) = 0}}
+    {D(m, UseLine(m, s, t), "Unresolved") : t \in {u \in ExtTargets(s) : LastIdx(env[u[1]], u[2]) = 0}}
 
 \* the call in item i: callee unresolved, or argument type differs from the callee's parameter type
 ItemDiag(m, s, env) ==
     UNION {IF ~HasRef(s, i) THEN {}
            ELSE LET r == s[i].r
                     j == LastIdx(env[r.m], r.n)
-                IN IF j = 0 THEN {D(m, "item", i, "", "", "Unresolved")}
-                   ELSE IF env[r.m][j].p # r.a THEN {D(m, "item", i, "", "", "Mismatch")}
+                IN IF j = 0 THEN {D(m, ItemLine(m, s, i), "Unresolved")}
+                   ELSE IF env[r.m][j].p # r.a THEN {D(m, ItemLine(m, s, i), "Mismatch")}
                    ELSE {}
            : i \in DOMAIN s}
 
@@ -107,11 +116,7 @@ TcDiag(m, s, env) == UseDiag(m, s, env) \cup ItemDiag(m, s, env)
 
 \* validate_root: every definition of a name after the first
 DupDiag(m, s) ==
-    {D(m, "item", j, "", "", "Duplicate") : j \in {k \in DOMAIN s : \E i \in 1..(k-1) : s[i].n = s[k].n}}
-
-\* zero-based line of item i in the fixed rendering: `library;`, one `pub mod` per child, one `use` per
-\* distinct external target, then one line per item
-ItemLine(m, s, i) == 1 + Cardinality(Children(m)) + Cardinality(ExtTargets(s)) + (i - 1)
+    {D(m, ItemLine(m, s, j), "Duplicate") : j \in {k \in DOMAIN s : \E i \in 1..(k-1) : s[i].n = s[k].n}}
 
 \* document symbols of a module
 SymsOf(m, s) == {<<ItemLine(m, s, i), s[i].n, s[i].p>> : i \in DOMAIN s}
